@@ -18,6 +18,7 @@ import (
 	"bufio"
 	"io"
 	"os"
+	"strings"
 
 	"github.com/alibaba/sentinel-golang/core/base"
 	"github.com/alibaba/sentinel-golang/logging"
@@ -175,18 +176,13 @@ func (r *defaultMetricLogReader) readMetricsInOneFileByEndTime(filename string, 
 }
 
 func readLine(bufReader *bufio.Reader) (string, error) {
-	buf := make([]byte, 0, 64)
-	for {
-		line, ne, err := bufReader.ReadLine()
-		if err != nil {
-			return "", err
-		}
-		buf = append(buf, line...)
-		if !ne {
-			return string(buf), err
-		}
-		// buffer size < line size, so we need to read until the `ne` flag is false.
+	// A line counts only when its terminator has been read: the writer appends "\n" to every item, so an
+	// unterminated tail is a line that was cut mid-write (crash) and must not be parsed as an item.
+	line, err := bufReader.ReadString('\n')
+	if err != nil {
+		return "", err
 	}
+	return strings.TrimRight(line, "\r\n"), nil
 }
 
 func getLatestSecond(items []*base.MetricItem) uint64 {
